@@ -188,6 +188,11 @@ func Gen(prop, tier string, seed, run uint64) Plan {
 	cfg := netsim.DefaultGen()
 	cfg.MaxConvs = 1 + r.IntN(10)
 	cfg.MaxFiles = 1 + r.IntN(5)
+	if tier == "thorough" && r.IntN(3) == 0 {
+		// deeper bounds in a third of the thorough runs
+		cfg.MaxConvs = 8 + r.IntN(24)
+		cfg.MaxFiles = 3 + r.IntN(7)
+	}
 	cfg.MaxPayload = 20_000
 	cfg.MaxMsgs = 5
 	cfg.BigMsgs = false
@@ -273,6 +278,9 @@ func Gen(prop, tier string, seed, run uint64) Plan {
 	}
 	// mutator
 	nMut := 4 + r.IntN(16)
+	if tier == "thorough" && r.IntN(3) == 0 {
+		nMut += r.IntN(30)
+	}
 	var mutOps []Op
 	exists := map[string]bool{}
 	existing := func() []string {
@@ -502,6 +510,9 @@ func Gen(prop, tier string, seed, run uint64) Plan {
 	// viewer
 	var viewOps []Op
 	nView := 2 + r.IntN(10)
+	if prop == "C16" || prop == "C10" || prop == "C13" {
+		nView += r.IntN(10)
+	}
 	open := []int{}
 	nextV := 1
 	for i := 0; i < nView; i++ {
@@ -517,7 +528,11 @@ func Gen(prop, tier string, seed, run uint64) Plan {
 			if len(p.Converters) > 0 && r.IntN(3) != 0 {
 				conv = p.Converters[r.IntN(len(p.Converters))]
 			}
-			viewOps = append(viewOps, Op{C: CView, K: "StreamData", V: open[r.IntN(len(open))], Stream: uint64(r.IntN(nStreams + 1)), Conv: conv})
+			vi := r.IntN(len(open))
+			if r.IntN(2) == 0 {
+				vi = 0 // the oldest view still open: several imports may lie between its snapshot and now
+			}
+			viewOps = append(viewOps, Op{C: CView, K: "StreamData", V: open[vi], Stream: uint64(r.IntN(nStreams + 1)), Conv: conv})
 		default:
 			j := r.IntN(len(open))
 			viewOps = append(viewOps, Op{C: CView, K: "ReleaseView", V: open[j]})
